@@ -12,6 +12,8 @@ def plan(tier):
         nm = f"{'unbounded' if ua else 'bounded'} x {'unbounded' if ub else 'bounded'}"
         for bc in ("elementwise", "pairwise"):
             I.append(inst(f"relations[{nm}, {bc}]", 'harness.c20', 'relations_any', dict(broadcast=bc, ua=ua, ub=ub), weight=40, timeout_s=900))
+    for bc in ("pairwise", "elementwise"):
+        I.append(inst(f"relations[mixed arrays, {bc}]", 'harness.c20', 'relations_mixed', dict(broadcast=bc), weight=60, timeout_s=900))
     if not q:
         I.append(inst("moebius-image[z -> 1/(z+t)]", 'harness.c20', 'moebius', dict(kind='inversion'), weight=400, timeout_s=1500))
         I.append(inst("moebius-image[general 2x2]", 'harness.c20', 'moebius', dict(kind='general'), weight=600, timeout_s=1500))
